@@ -6,7 +6,6 @@
 #include <yaclib/fault/detail/fiber/recursive_mutex.hpp>
 #include <yaclib/fault/detail/fiber/shared_mutex.hpp>
 #include "vp.h"
-extern "C" int vp_yield_to_pending() noexcept;   // Tier A scheduler: runs the pending unit if it has not run yet (1) else 0
 using namespace yaclib::detail::fiber;
 
 static unsigned g_cur = 1;                 // running fiber id (1 = A, 2 = B, 3 = C)
